@@ -182,9 +182,9 @@ func Render(prog *Program, withDriver bool) map[string]string {
 	for _, p := range r.pkgs {
 		used[p.Name]++
 		if used[p.Name] == 1 {
-			r.alias[p] = p.Name
+			r.alias[p] = prog.UserImportPrefix + p.Name
 		} else {
-			r.alias[p] = fmt.Sprintf("%s%d", p.Name, used[p.Name])
+			r.alias[p] = fmt.Sprintf("%s%s%d", prog.UserImportPrefix, p.Name, used[p.Name])
 		}
 	}
 	out := map[string]string{}
